@@ -165,6 +165,40 @@ def coq_make(targets=None, timeout=1500):
         return rc == 0, out
 
 
+STD_AXIOMS = {"Coq.Logic.FunctionalExtensionality.functional_extensionality_dep", "Coq.Reals.ClassicalDedekindReals.sig_not_dec",
+              "Coq.Reals.ClassicalDedekindReals.sig_forall_dec", "Coq.Logic.Classical_Prop.classic"}
+
+
+def coqchk(vfile, timeout=2400):
+    """independent re-check of the compiled props file and everything it depends on (coqchk -o);
+    -> (ok, axioms reported, problems)"""
+    mod = "Zn." + vfile[:-2].replace("/", ".")
+    with Lock("coq"):
+        rc, out = sh(["coqchk", "-silent", "-o", "-R", ".", "Zn", mod], cwd=COQ, timeout=timeout, mem_gb=16)
+    axioms, problems = [], []
+    sec = None
+    for line in out.split("\n"):
+        t = line.strip()
+        if t.startswith("* "):
+            sec = t[2:].split(":")[0]
+            rest = t.split(":", 1)[1].strip() if ":" in t else ""
+            if rest and rest != "<none>" and sec != "Theory":
+                (axioms if sec == "Axioms" else problems).append(sec + ": " + rest)
+            continue
+        if t and sec and not t.startswith("CONTEXT") and not t.startswith("==="):
+            if sec == "Axioms":
+                axioms.append(t)
+            elif sec != "Theory":
+                problems.append(sec + ": " + t)
+    axioms = [a.replace("Axioms: ", "") for a in axioms]
+    extra = [a for a in axioms if a not in STD_AXIOMS]
+    if extra:
+        problems.append("axioms outside the standard library's: " + ", ".join(extra))
+    if rc != 0:
+        problems.append("coqchk exit %d: %s" % (rc, out[-400:]))
+    return (rc == 0 and not problems), axioms, problems
+
+
 def coq_cone(vfile):
     """the .v files props/Cnn.v transitively depends on (from coqdep), including itself"""
     files = []
